@@ -178,7 +178,7 @@ class DbLayouts(Fam):
     exhaustive = False
     procs = 0
     rule = ('tiny database (11 genomes incl. identical ones and two without any k-mer; one probe without any k-mer) written with the signature file in identity / reversed / rotated / shuffled order and '
-            'unused signatures in front, behind, both, in the middle or absent (25 layouts, alternating between two editions of the taxonomy with the same primary keys and other thresholds / one moved species, all opened in one process) x 4 probes x chunk sizes {none,1,2,4,1000} x N in {1,3,n+2}: '
+            'unused signatures in front, behind, both, in the middle or absent (25 layouts, alternating between two editions of the taxonomy with the same primary keys and other thresholds / one moved species, all opened in one process) x 4 probes x chunk sizes {none,1,2,4,5,n-1,n,1000} (freed float32 blocks NaN-filled before every query) x N in {1,3,n+2}: '
             'one record per (layout, probe) holding all runs; TLC recomputes the distances from the nucleotide sequences')
 
     def inputs(self, ctx):
@@ -253,10 +253,15 @@ def db_layout_records(inp, tmp):
         for pi, contigs in enumerate(inp['probes']):
             rec = dict(op='db', db=dbt, probe=[blist(c.encode()) for c in contigs], pi=pi, layout=inp['layout'], runs=[])
             sigs = SignatureArray([W.real_signature(w['kspec'], contigs)], ks)
-            for chunk in (None, 1, 2, 4, 1000):
+            for chunk in (None, 1, 2, 4, 5, n - 1, n, 1000):
                 for N in (1, 3, n + 2):
                     run = dict(chunk=-1 if chunk is None else chunk, N=N, ok=False, err='', list=[], closest_g=0, json=[], csv_g=0)
                     try:
+                        # freed float32 blocks of the size of a distance table are filled with NaN first: a cell the computation never writes
+                        # (np.empty hands such blocks out again) then shows as NaN instead of the stale, correct value of the previous run
+                        import numpy as _np
+                        junk = [_np.full((len(sigs), n), _np.nan, dtype=_np.float32) for _ in range(8)]
+                        del junk
                         res = query(db, sigs, QueryParams(report_closest=N, chunksize=chunk))
                         it = res.items[0]
                         run['list'] = [dict(g=gidx[m.genome.key], d=f32_bits(m.distance), mt=0 if m.matched_taxon is None else int(m.matched_taxon.key[3:]))
